@@ -111,7 +111,7 @@ def run(P, chk, tier):
             badd = [d for d in ds if not (guard.d_holds(d, "<", off, pl) and guard.d_holds(d, ">=", off, 0))]
             # an offset assembled from 14 masked bits is non-negative by construction
             if badd:
-                badd = [d for d in ds if not guard.d_holds(d, "<", off, pl)]
+                badd = [d for d in ds if not (guard.d_holds(d, "<", off, pl) or guard.d_nonneg(d, ({pl: 1, off: -1}, -1)))]
             chk.site(r2, rl, ir.loc(x), "jump target %s" % pp(x), not badd,
                      "compression pointer followed without %s < %s on some path" % (off, pl) if badd else "%s < %s" % (off, pl))
     if nt == 0:
